@@ -86,6 +86,7 @@ type ContractSet struct {
 	Order    []string
 	Types    map[string]*TypeSpec
 	SpecFuns map[string]*SpecFun
+	RecFuns  map[string]*RecFun // recursive spec functions (define-fun-rec)
 	UFuns    map[string]*UFun
 	GhostVars map[string]string // ghost state variables: name -> Go integer type name (ghostvar NAME TYPE)
 	AutoInline []string         // dependency packages whose contract-less functions are executed inline
@@ -111,6 +112,21 @@ type Axiom struct {
 }
 
 // SpecFun is a user-defined pure spec function: //@ spec name(a, b) = expr
+// RecFun: a recursive specification function, emitted as an SMT define-fun-rec.
+//
+//	recfun name(inp []byte, i int, e int) bool = body
+//
+// Parameters carry Go types (a byte slice is passed as its contents, offset and length); the body may call the
+// function itself. Termination is the writer's obligation (stated next to the definition).
+type RecFun struct {
+	Name   string
+	Params []string
+	PTypes []string
+	Result string
+	Src    string
+	Expr   ast.Expr
+}
+
 type SpecFun struct {
 	Name   string
 	Params []string
@@ -235,7 +251,7 @@ func mkClause(tags, src string) (Clause, error) {
 
 // LoadContracts reads all zz_verif_contracts.go files under repo and all *.spec files under stdlibDir.
 func LoadContracts(repo string, schemaDir string, stdlibDir string, overlay map[string][]byte) (*ContractSet, error) {
-	cs := &ContractSet{Funcs: map[string]*Contract{}, Types: map[string]*TypeSpec{}, SpecFuns: map[string]*SpecFun{}}
+	cs := &ContractSet{Funcs: map[string]*Contract{}, Types: map[string]*TypeSpec{}, SpecFuns: map[string]*SpecFun{}, RecFuns: map[string]*RecFun{}}
 	var files []string
 	err := filepath.Walk(repo, func(p string, info os.FileInfo, err error) error {
 		if err != nil {
@@ -587,6 +603,31 @@ func (cs *ContractSet) parseLines(lines []string, file, pkgPath, schemaDir strin
 				return fmt.Errorf("%s: %v", where, err)
 			}
 			cs.Axioms = append(cs.Axioms, &Axiom{Name: strings.TrimSpace(rest[:c]), Src: strings.TrimSpace(rest[c+1:]), Expr: e})
+			cur = nil
+			continue
+		case "recfun":
+			rest := strings.TrimSpace(strings.TrimPrefix(l, "recfun"))
+			eq := strings.Index(rest, "=")
+			op := strings.Index(rest, "(")
+			cp := strings.Index(rest, ")")
+			if eq < 0 || op < 0 || cp < 0 || cp > eq {
+				return fmt.Errorf("%s: recfun name(p T, ...) R = body", where)
+			}
+			rf := &RecFun{Name: strings.TrimSpace(rest[:op]), Result: strings.TrimSpace(rest[cp+1 : eq]), Src: strings.TrimSpace(rest[eq+1:])}
+			for _, p := range strings.Split(rest[op+1:cp], ",") {
+				pf := strings.Fields(strings.TrimSpace(p))
+				if len(pf) != 2 {
+					return fmt.Errorf("%s: recfun parameter %q needs a name and a type", where, p)
+				}
+				rf.Params = append(rf.Params, pf[0])
+				rf.PTypes = append(rf.PTypes, pf[1])
+			}
+			e, err := ParseSpecExpr(rf.Src)
+			if err != nil {
+				return fmt.Errorf("%s: %v", where, err)
+			}
+			rf.Expr = e
+			cs.RecFuns[rf.Name] = rf
 			cur = nil
 			continue
 		case "spec", "lemma":
